@@ -841,6 +841,18 @@ def gen_c07(tier, seed):
                       "screen": 3, "screen_cap": 800 if tier == "quick" else 20000,
                       "then": [{"op": "restore_all"}]})
         scens.append({"id": sid("C07", "race", i), "props": ["C07"], "mode": "conc", "tags": ["backup-vs-backup"], "steps": steps})
+    # two backups that both need a content whose block file is the zero-length leftover of a killed write
+    for i in range(6 if tier == "quick" else 60):
+        o = rng.choice([{"H": 1000, "M": 1000, "S": 0}, {"H": 2, "M": 3, "S": 0}, {"H": 1000, "M": 1000, "S": 1000}])
+        shared = bytes([rng.choice([1, 2, 3])]) * rng.randrange(2, 4)
+        t0 = [node("/", "Dir"), node("/a", "File", shared), node("/b", "File", bytes([5]) * 2)]
+        ta = [node("/", "Dir"), node("/a", "File", shared), node("/c", "File", bytes([6]) * 3, mt=(1600000021, 0))]
+        tb = [node("/", "Dir"), node("/a", "File", shared), node("/d", "File", bytes([7]) * 2, mt=(1600000022, 0))]
+        steps = [{"op": "tree", "tree": t0}, bk(o, crash_at=rng.randrange(9, 16), crash_empty=True),
+                 {"op": "conc_sweep", "actors": [bk(o, actor="bk1", tree=ta), bk(o, actor="bk2", tree=tb)],
+                  "preemptions": 2, "sample": 60 if tier == "quick" else 1000, "seed": seed * 100 + i,
+                  "then": [{"op": "restore_all"}]}]
+        scens.append({"id": sid("C07", "leftover-race", i), "props": ["C07"], "mode": "conc", "tags": ["backup-vs-backup", "empty-leftover"], "steps": steps})
     # two deletes / gcs started at the same moment: each removes only the requested versions,
     # unreferenced blocks and ITS OWN lock
     for i in range(8 if tier == "quick" else 80):
@@ -910,6 +922,16 @@ def gen_c09(tier, seed):
                 out.append({"op": "validate", "quick": False})
                 out.append({"op": "validate", "quick": True})
         scens.append({"id": sid("C09", "healthy", i), "props": ["C09"], "mode": "clean", "tags": ["healthy"], "steps": out})
+    # more blocks than any batch / window / cache a validator may use (150-260 one-block files): damage to
+    # random blocks must be reported whichever of them it hits
+    for i in range(2 if tier == "quick" else 12):
+        nfiles = rng.choice([150, 210, 260])
+        t = [node("/", "Dir")] + [node("/f%03d" % j, "File", bytes([(j % 250) + 1, (j // 250) + 1, 7]), mt=(1600002000 + j, 0)) for j in range(nfiles)]
+        steps = [{"op": "tree", "tree": t}, bk({"H": 1000, "M": 1000, "S": 0}), {"op": "validate", "quick": False},
+                 {"op": "damage_sweep", "with_header": False, "with_tails": False, "hows": ["garbage", "delete"], "bitflips": 1,
+                  "only": "Block", "sample": 24 if tier == "quick" else 120, "seed": seed * 100 + i,
+                  "then": [{"op": "validate", "quick": False}]}]
+        scens.append({"id": sid("C09", "many", i), "props": ["C09"], "mode": "clean", "tags": ["damage", "many-blocks"], "steps": steps})
     # damage side
     m = 24 if tier == "quick" else 200
     for i in range(m):
@@ -930,7 +952,7 @@ def gen_c10(tier, seed):
     for i in range(m):
         steps, o = damage_archive(rng)
         steps += [{"op": "damage_sweep", "with_header": False, "with_tails": True, "bitflips": 2 if tier == "quick" else 6,
-                   "smart_flips": (3 if tier == "quick" else 12) if i % 2 == 0 else 0,
+                   "smart_flips": 6 if tier == "quick" else 16,
                    "sample": 0 if tier != "quick" else 50, "seed": seed * 100 + i,
                    "then": [{"op": "versions"}, {"op": "list_all"}, {"op": "restore_all", "latest": True},
                             {"op": "validate", "quick": False}, {"op": "validate", "quick": True},
@@ -1005,6 +1027,22 @@ def gen_c11(tier, seed):
         scens.append({"id": sid("C11", "sib", i), "props": ["C11"], "mode": "clean", "tags": ["walk", "prefix-siblings"],
                       "steps": [{"op": "tree", "tree": t}, {"op": "walk"}, bk(o), {"op": "list", "band": 0},
                                 {"op": "tree", "tree": t2}, {"op": "walk"}, bk(o), {"op": "restore", "band": 1}]})
+    # names that are not valid UTF-8 (Latin-1 leftovers): they cannot be archive paths; whatever the
+    # walk does with them, what it emits and what gets written stays strictly increasing
+    for i in range(6 if tier == "quick" else 60):
+        t = random_tree(rng, nmax=4, depth=2, names=["a", "b", "menus"], pre_epoch=False, maxlen=3, symlinks=False)
+        dirs = [nd for nd in t if nd["k"] == "Dir"]
+        for raw in rng.sample([b"caf\xe9", b"caf\xe8", b"caf\xeb", b"\xfftes", b"\xfetes", b"x\xc3", b"\x80", b"caf\xef\xbf\xbd"], rng.randrange(2, 5)):
+            parent = rng.choice(dirs)
+            nd = node("/x", rng.choice(["File", "File", "Dir"]), b"" if rng.random() < 0.5 else b"\x01")
+            nd["p"] = parent["p"] + [list(raw)]
+            if nd["k"] == "Dir":
+                nd["c"] = []
+            if not any(m["p"] == nd["p"] for m in t):
+                t.append(nd)
+        o = {"H": rng.choice([1, 2, 1000]), "M": 1000, "S": 1000}
+        scens.append({"id": sid("C11", "nonutf8", i), "props": ["C11"], "mode": "clean", "tags": ["walk", "non-utf8-names"],
+                      "steps": [{"op": "tree", "tree": t}, {"op": "walk"}, bk(o), {"op": "list", "band": 0}]})
     n = 80 if tier == "quick" else 1000
     for i in range(n):
         t = random_tree(rng, nmax=rng.choice([5, 9, 14, 20]), depth=4, names=names, pre_epoch=False, maxlen=4)
@@ -1356,6 +1394,16 @@ def gen_c08(tier, seed):
             if st == "noheadtail":
                 lay[-1]["hunks"] = hunks[:rng.randrange(0, 2)]
         s = c08_scenario(sid("C08", "rnd", i), lay, universe, ids, ["random-arrangement"])
+        if i % 4 == 1:
+            # an empty index hunk (legal, written by old versions) somewhere in a band
+            bands = [bd for bd in s["steps"][0]["bands"] if bd["hunks"]]
+            if bands:
+                bd = rng.choice(bands)
+                k = rng.randrange(0, len(bd["hunks"]) + 1)
+                first = bd["hunks"][0]["n"]
+                bd["hunks"].insert(k, {"n": 0, "es": []})
+                for j, h in enumerate(bd["hunks"]):
+                    h["n"] = first + j
         # richer filters for the random ones
         for bd in s["steps"][0]["bands"]:
             if bd["head"] and not bd["tail"]:
